@@ -1,8 +1,19 @@
 """Registry entry, manifest texts for C11."""
 
-ENTRY = {'parts': [{'scenario': 'scenarios.s_pool', 'chunk': 6}],
-         'quick': {'runs': 2500, 'budget': 60}, 'thorough': {'runs': 150000, 'budget': 1200}}
+ENTRY = {'parts': [{'scenario': 'scenarios.s_pool', 'chunk': 6, 'frac': 0.75},
+                   {'scenario': 'scenarios.s_restart', 'chunk': 50, 'frac': 0.25}],
+         'quick': {'runs': 3000, 'budget': 60}, 'thorough': {'runs': 200000, 'budget': 1200}}
 
-TEXT = {'level': 'TODO', 'ref': 'DESIGN.md 5 (C11), 4 (S-POOL)', 'note': 'TODO'}
-
-ENABLED = False
+TEXT = {'level': '(1) restart_state.step driven through generated histories of restart requests, gaps (simulated '
+          'clock, also exactly at the window edge) and acceptance resets against a model written from the '
+          'property text (history sweep: no interleaving involved, said so in the evidence). (2) the whole '
+          'pool with max_restarts 1-5 and max_restart_freq 0.5-3 s, workers exiting abnormally / cleanly / '
+          'with the recycle status at generated gaps, acceptances in between: every request the pool makes '
+          'to its limiter is replayed through the model (admitted/refused must agree), clean/recycle exits '
+          'never consult it, no fork after a refusal.',
+ 'note': 'Trusted: the simulated kernel (simos) models Linux semaphores, pipes, poll, process table, signals '
+         'and wait statuses faithfully (stub conformance: selftest/conformance.py); BaseProcess._bootstrap '
+         'is replaced by a replica of its exit-code mapping (checked by C19); start method is spawn-like '
+         '(pickled copy). Workers die uncatchably only inside task code or between jobs; pipes do not lose '
+         'bytes. Sampling, not proof.',
+ 'ref': 'DESIGN.md 5 (C11), 4 (S-POOL, S-RESTART)'}
